@@ -287,8 +287,8 @@ class WirelessRouter(Router, discriminator="wireless-router"):
                     src_port=None if not (p := r_cfg.get("src_port")) else PORT_LOOKUP[p],
                     dst_port=None if not (p := r_cfg.get("dst_port")) else PORT_LOOKUP[p],
                     protocol=None if not (p := r_cfg.get("protocol")) else PROTOCOL_LOOKUP[p],
-                    src_ip_address=r_cfg.get("src_ip"),
-                    dst_ip_address=r_cfg.get("dst_ip"),
+                    src_ip_address=r_cfg.get("src_ip", r_cfg.get("src_ip_address")),
+                    dst_ip_address=r_cfg.get("dst_ip", r_cfg.get("dst_ip_address")),
                     src_wildcard_mask=r_cfg.get("src_wildcard_mask"),
                     dst_wildcard_mask=r_cfg.get("dst_wildcard_mask"),
                     position=r_num,
